@@ -1064,7 +1064,7 @@ async def s_pool_names() -> List[str]:
     async def work():
         await asyncio.sleep(0)
 
-    pools = [TaskPool(), TaskPool(pool_size=2), SimpleTaskPool(work)]
+    pools = [TaskPool(), TaskPool(pool_size=2)]
     names = [str(p) for p in pools]
     pools[0].apply(work, num=2)
     await ticks()
